@@ -1,4 +1,7 @@
 import ModbusProofs.Properties.C01
+import ModbusProofs.Properties.C02
 import ModbusProofs.Properties.C03
 import ModbusProofs.Properties.C09
 import ModbusProofs.Properties.C10
+import ModbusProofs.Properties.C11
+import ModbusProofs.Properties.C18
